@@ -481,6 +481,7 @@ package kcp
 //
 //@ func KCP.Recv
 //@   ensures @C01 [receive-queue-in-sequence-order] old(kcp.rcvQ()) ==> kcp.rcvQ()
+//@   ensures @C04 [a-window-reopened-by-the-reader-is-announced] result >= 0 && old(kcp.rcv_queue.rlen()) >= kcp.rcv_wnd && kcp.rcv_queue.rlen() < kcp.rcv_wnd ==> (kcp.probe / 2) % 2 == 1
 //@   loop 1 invariant old(kcp.rcvQ()) ==> kcp.rcvQ()
 //@   loop 2 invariant old(kcp.rcvQ()) ==> kcp.rcvQ()
 //@   requires kcp.wf()
